@@ -1,7 +1,7 @@
 #!/bin/bash
 # usage: seedtest.sh <patch.diff> <PROP> [<PROP>...]   -- applies the patch to a scratch copy of /repo's HEAD, runs the checks on it, removes the copy
 set -u
-PATCH="$1"; shift
+PATCH="$(readlink -f "$1")"; shift
 D=$(mktemp -d /tmp/seedwt.XXXXXX)
 rmdir "$D"
 git -C /repo worktree add -q --detach "$D" HEAD || exit 2
